@@ -157,7 +157,7 @@ def good_value(o: J, layer_by: Dict[str, J], r: random.Random, depth: int = 0) -
     if t == "SFIELD":
         return [good_value(layer_by[o["struct"]], layer_by, r, depth + 1) for _ in range(o["n"])]
     if t in ("DLFIELD", "EOPFIELD", "EMFIELD"):
-        n = r.choice([0, 1, 2, 3])
+        n = r.choice([0, 1, 2, 3]) if _ITEMS[0] is None else _ITEMS[0]
         if t == "EOPFIELD":
             n = max(n, o.get("min") or 0)
             if o.get("max") is not None:
@@ -218,6 +218,7 @@ def good_params(params: List[J], layer_by: Dict[str, J], r: random.Random, depth
 
 
 _ROT = [-1]
+_ITEMS: List[Optional[int]] = [None]  # every third assignment has fields of three items
 
 
 def assignments(msg: J, layer: J, r: random.Random, n: int = 6) -> List[Dict[str, Any]]:
@@ -230,10 +231,12 @@ def assignments(msg: J, layer: J, r: random.Random, n: int = 6) -> List[Dict[str
         n = max(n, 6)  # one message per construct: a few more assignments each
     for i in range(n):
         _ROT[0] = i
+        _ITEMS[0] = 3 if i % 3 == 2 else None
         try:
             v = good_params(msg["params"], by, r)
         finally:
             _ROT[0] = -1
+            _ITEMS[0] = None
         # explicit length keys for some assignments
         for p in msg["params"]:
             if p["p"] == "LENGTH-KEY" and i % 2 == 1:
